@@ -1240,6 +1240,18 @@ def seq_step(ctx, rng, st):
         twin = make_seq(rng, ctx, m, log=False)
         if not (obj == twin) or not (twin == obj) or (obj != twin):
             ctx.fail("seq_equality", "sequence != an equal sequence built from the same symbols")
+        # equality is by content: an equal sequence whose alphabet is another, equal object (a deep copy, a pickle
+        # round trip, an alphabet built separately from the same symbols)
+        import copy as _copy
+        import pickle as _pickle
+        for how, other_ in (("deepcopy", lambda: _copy.deepcopy(obj)), ("pickle", lambda: _pickle.loads(_pickle.dumps(obj)))):
+            try:
+                o2 = other_()
+            except Exception as e:
+                ctx.note("sequence_not_%sable:%s" % (how, type(e).__name__))
+                continue
+            if not (obj == o2) or not (o2 == obj):
+                ctx.fail("seq_equality", "sequence != its %s (equal symbols over an equal, non-identical alphabet object)" % how)
         if obj == m.text() or obj == list(m.syms) or obj == obj.code:
             ctx.fail("seq_equality", "sequence == its str/list/code")
         if len(m.alph) >= 2:
